@@ -119,8 +119,14 @@ func quiesce(target int) bool {
 	return false
 }
 
+// poisonKeys, when non-nil, makes the harness callback panic (after it has recorded the firing)
+// for these keys: go-zero must contain the panic of one timer's callback without losing the
+// other timers that are due at the same tick. Set per case; cases of a child run sequentially.
+var poisonKeys map[int]bool
+
 func newRunner(c *kit.Case, n int, seq []op) *runner {
 	r := &runner{n: n, model: map[int]*mtimer{}, c: c, seq: seq}
+	poison := poisonKeys // read-only from here on
 	if !quiesce(procBaseline) {
 		c.Inconclusive("goroutine count did not return to the process baseline")
 	}
@@ -129,6 +135,10 @@ func newRunner(c *kit.Case, n int, seq []op) *runner {
 		r.mu.Lock()
 		r.got = append(r.got, fired{k.(int), v.(int)})
 		r.mu.Unlock()
+		if poison[k.(int)] {
+			kit.Obs("callback_panics", 1)
+			panic("c12: poisoned timer callback")
+		}
 	}, r.tk)
 	if err != nil {
 		panic(err)
@@ -567,7 +577,19 @@ func TestVerifC12(t *testing.T) {
 			seq = append(seq, o)
 		}
 		drain := r.Chance(0.3)
+		poisonKeys = nil
+		if r.Chance(0.3) {
+			// the callbacks of some keys panic: every other timer must still fire exactly once at its tick
+			poisonKeys = map[int]bool{}
+			for k := 0; k < keys; k++ {
+				if r.Chance(0.4) {
+					poisonKeys[k] = true
+				}
+			}
+			c.Obs("histories_with_panicking_callbacks", 1)
+		}
 		runSeq(c, n, seq, drain)
+		poisonKeys = nil
 		if c.Index < 2 {
 			s := make([]string, len(seq))
 			for i, o := range seq {
